@@ -63,7 +63,7 @@ Consistent(doc)  == \A j \in 1..Len(Blocks(doc)) : Blocks(doc)[j].t # "ERROR"
 (* Where an edit is meaningless layout.  l describes the line the edit touches: [class, endin, open]
    (for "blank": the line the new line is put in front of; class "eof" = appended at the end).  *)
 NeutralAt(op, l, ver) ==
-  CASE op = "blank"             -> l.class \notin {"instring", "cont"}
+  CASE op = "blank"             -> l.class # "instring" /\ (l.class # "cont" \/ ver = "2.x")     \* 2.x: the and/or token of a continuation line absorbs the blank lines in front of it
     [] op \in {"tws", "twstab"} -> ~l.endin
     [] op = "eol"               -> ver = "2.x" /\ l.class = "code" /\ ~l.endin /\ ~l.open
     [] op = "scale"             -> TRUE
@@ -100,12 +100,12 @@ SameBlocks(orig, doc) == Blocks(doc) = Blocks(orig) /\ LexerBlocks(doc) = LexerB
 (* string literals are never touched: nothing is put in front of a line that starts inside a string,
    nothing is appended to a line that ends inside one, their indentation is what it was *)
 OrigLine(orig, id) == orig[IdxOf(orig, id)]
-StringsUntouched(orig, doc) ==
+StringsUntouched(orig, doc, ver) ==
   /\ \A i \in 1..Len(doc) :
        /\ doc[i].class = "instring" => /\ doc[i].id # 0
                                        /\ doc[i].indent = OrigLine(orig, doc[i].id).indent
                                        /\ (i > 1 => doc[i - 1].id # 0)
        /\ doc[i].endin => doc[i].tws = 0 /\ ~doc[i].eol
        /\ doc[i].open => ~doc[i].eol
-  /\ \A i \in 1..Len(doc) : doc[i].class = "cont" /\ i > 1 => doc[i - 1].id # 0
+  /\ ver # "2.x" => \A i \in 1..Len(doc) : doc[i].class = "cont" /\ i > 1 => doc[i - 1].id # 0
 =============================================================================
